@@ -70,6 +70,8 @@ pub struct Layout {
     pub objsense: u8,        // 0 absent (only when minimising), 1 inline, 2 own line
     pub gzip: bool,
     pub bound_after_ranges: bool,
+    /// 0 nothing, 1 a comment line, 2 a blank line between an OBJSENSE header and its value line
+    pub objsense_gap: u8,
 }
 
 #[derive(Clone, Debug, PartialEq)]
@@ -183,7 +185,19 @@ pub fn gen_lp(t: &mut Tape, ctx: &mut Ctx) -> Lp {
             (Some(_), Some(r)) if !r.dyadic => Some(Num { text: "1.5".into(), value: qfrac(3, 2), dyadic: true }),
             (_, r) => r,
         };
-        rows.push(Row { name: gen_name(t, "r", i), kind, rhs, range });
+        // a row may be named like the twin the reader generates for a ranged row ("<row>_")
+        let name = if i > 0 && t.p(40) {
+            ctx.label("row-named-like-range-twin");
+            let base: String = rows[t.choice(rows.len())].name.clone();
+            let mut cand = format!("{base}_");
+            while rows.iter().any(|r: &Row| r.name == cand) {
+                cand.push('_');
+            }
+            cand
+        } else {
+            gen_name(t, "r", i)
+        };
+        rows.push(Row { name, kind, rhs, range });
     }
     let mut cols: Vec<Col> = vec![];
     let mut integer_block = false;
@@ -294,7 +308,11 @@ pub fn gen_layout(t: &mut Tape, lp: &Lp, ctx: &mut Ctx) -> Layout {
         objsense: if lp.maximize { 1 + t.choice(2) as u8 } else { t.choice(3) as u8 },
         gzip: t.p(100),
         bound_after_ranges: true,
+        objsense_gap: t.choice(3) as u8,
     };
+    if l.objsense == 2 && l.objsense_gap != 0 {
+        ctx.label("objsense-gap");
+    }
     if l.five_field {
         ctx.label("5-field");
     }
@@ -341,6 +359,11 @@ pub fn write_mps(lp: &Lp, l: &Layout, inject: &Inject) -> String {
         (0, false) => {}
         (2, _) => {
             out.push_str("OBJSENSE\n");
+            match l.objsense_gap {
+                1 => out.push_str("* the sense follows\n"),
+                2 => out.push('\n'),
+                _ => {}
+            }
             line(&mut out, &[sense_word]);
         }
         _ => out.push_str(&format!("OBJSENSE {}\n", sense_word)),
